@@ -19,6 +19,6 @@ def run(tier, seed):
                               "JSON pointer: delete, set null, retype to each other JSON kind, rename a key to \"\", to a dotted name, to a sibling's name, replace by a $ref to nowhere, add siblings next to "
                               "$ref, transplant a sub-tree, duplicate an array element; 15%% double edits. Each document that loads is validated in both continue-on-errors modes under a 60 s watchdog; TLC "
                               "(Trace_SpecRun, clause C07) requires every run to return and its phase trace, observed through the verifPhase hook, to be a run of SpecValidator.tla. Quick: a seeded sample of "
-                              "%s edits per base; thorough: every single edit. distinct = distinct documents that load." % ("160" if quick else "all"))
+                              "%s edits per base (the rare edit kinds always kept). distinct = distinct documents that load." % ("160" if quick else "600"))
     check.assumptions = ["termination is a 60 s watchdog", "the specification's contribution is the totality post-condition and the phase machine; detection rests on the edit universe"]
     return check.finish()
